@@ -15,3 +15,8 @@ pub fn write_u32_be(dst: &mut [u8], input: u32)
     requires old(dst).len() == 4
     ensures final(dst)@ == be4(input as int)
 { unimplemented!() }
+#[verifier::external_body]
+pub fn write_u64_le(dst: &mut [u8], input: u64)
+    requires old(dst).len() == 8
+    ensures final(dst)@ == le4(input as int % 0x1_0000_0000) + le4((input as int / 0x1_0000_0000) % 0x1_0000_0000)
+{ unimplemented!() }
